@@ -1,0 +1,9 @@
+
+// ---- go_file.go -------------------------------------------------------------
+
+// Rendering is template execution: its text is a function of the render tree
+// (determinism is property C12) and it performs no file-system writes.
+
+//@ func (GoFile).Render() (string, error)
+//@   pure
+//@   purefunc
